@@ -59,7 +59,10 @@ CtorHeaps ==
   {H1(T23, "dense", "T23"), H1(T32, "dense", "T32"), H1(T33, "dense", "T33"), H1(T22, "dense", "T22"), H1(F11, "dense", "F11"),
    H1(F13, "dense", "F13"), H1(F31, "dense", "F31"), H1(F24frac, "dense", "F24frac"), H1(CT34, "dense", "CT34"),
    H1(F23num, "dense", "F23num"), H1(T23zero, "dense", "T23zero")}
-HeapSets == [sum |-> SumHeaps, ctor |-> CtorHeaps, files |-> FileHeaps, json |-> JsonHeaps,std |-> MCInitHeaps, eq |-> EqHeaps, all |-> MCInitHeaps \cup EqHeaps, mrg |-> MergeHeaps,
+ValHeaps ==
+  {H1(F23num, "dense", "F23num"), H1(F23tax, "csr_unsorted", "F23tax"), H1(T23, "csr_zeros", "T23z"),
+   H1(T33, "csc", "T33"), H1(F33dense, "dense", "F33dense"), H1(F13, "dense", "F13"), H1(F24frac, "coo", "F24frac")}
+HeapSets == [val |-> ValHeaps, sum |-> SumHeaps, ctor |-> CtorHeaps, files |-> FileHeaps, json |-> JsonHeaps,std |-> MCInitHeaps, eq |-> EqHeaps, all |-> MCInitHeaps \cup EqHeaps, mrg |-> MergeHeaps,
              cat |-> ConcatHeaps, cnt |-> CountHeaps, stdcnt |-> MCInitHeaps \cup CountHeaps]
 MCHeaps == HeapSets[IOEnv.GEN_HEAPS]
 
